@@ -1,6 +1,7 @@
 import Reduino.Driver.Util
 import Reduino.Fw.ListHeap
-/- `heap|op;op;…` — per op `ok live=<n> [v=<value>]`, stops at the first `memerr:<kind>` -/
+/- `heap|op;op;…` — per op `ok live=<n> [v=<value>]`, stops at the first `memerr:<kind>`.
+   Op tokens: `dm x v,…` `dc y x` `av x y` `at x v,…` `ap x v` `rm x v` `get x i` `len x` `sw x y`. -/
 namespace Reduino.Driver
 open Reduino.Fw.Heap
 
@@ -16,6 +17,7 @@ def heapOp? (ws : List String) : Option Op :=
   | ["rm", x, v] => some (.remove x v.toInt!)
   | ["get", x, i] => some (.get x i.toInt!)
   | ["len", x] => some (.len x)
+  | ["sw", x, y] => some (.swap x y)
   | _ => none
 
 def errName : MemErr → String
